@@ -64,6 +64,15 @@ def run_model(histories, release=False, snap=False, inv=False):
     return parse_output(p.stdout)
 
 
+def _limit_memory():
+    """address-space limit for the harness process: a defective build that allocates without bound (a seeded change made
+    one grow past 38 GB) must end in an allocation failure of its own - a crash attributed to the history in flight - and
+    not take the machine, and the other checks running on it, down.  The unchanged code needs well under 1 GB."""
+    import resource
+    lim = int(os.environ.get("VERIF_HX_MEM_GB", "8")) << 30
+    resource.setrlimit(resource.RLIMIT_AS, (lim, lim))
+
+
 def run_impl(histories, profile="debug", snap=False, timeout=600, exe=None, env=None):
     """Runs the harness; a crash (abort, signal) is attributed to the history being executed, recorded as an
     `exit` observation on its last operation, and execution resumes with the next history."""
@@ -81,7 +90,8 @@ def run_impl(histories, profile="debug", snap=False, timeout=600, exe=None, env=
         try:
             if profile == "asan" and env is None:
                 env = dict(os.environ, ASAN_OPTIONS="detect_leaks=0:abort_on_error=1")
-            p = subprocess.run(args, input=inp, capture_output=True, text=True, timeout=timeout, env=env, errors="replace")
+            p = subprocess.run(args, input=inp, capture_output=True, text=True, timeout=timeout, env=env, errors="replace",
+                               preexec_fn=(None if profile == "asan" else _limit_memory))
             rc = p.returncode
             stdout = p.stdout
             stderr = p.stderr
@@ -106,7 +116,7 @@ def run_impl(histories, profile="debug", snap=False, timeout=600, exe=None, env=
             single = [h for h in todo if h[0] == crashed]
             try:
                 p2 = subprocess.run(args, input=format_histories(single), capture_output=True, text=True, timeout=90,
-                                    env=env, errors="replace")
+                                    env=env, errors="replace", preexec_fn=(None if profile == "asan" else _limit_memory))
                 if p2.returncode == 0:
                     part.update(parse_output(p2.stdout))
                     res.update(part)
